@@ -301,7 +301,7 @@ def checkStep (e : Env) (pre : Sys) (op : Op) (res : Res) (post : Sys) : List (S
       ("C12", s!"clause=timeoutPending cls={if addU64 (toU64 post.st.h) o.timeout ≥ addU64 o.createdAt o.duration then "near-end-of-life" else "none"} rec=order{o.id}"))
    else []) ++
   -- C12: an order examined by the timeout handler in this block leaves the schedule only when it
-  -- is gone or every replica it is still paid for is stored
+  -- is gone or every replica it is still paid for is stored (checked while no stored shard can have expired yet)
   (if isBlockEnd op && res = .ok then
     let examined := (Map.find? pre.st.timeoutQ post.st.h.toNat).getD []
     examined.eraseDups.filterMap (fun id =>
@@ -309,6 +309,8 @@ def checkStep (e : Env) (pre : Sys) (op : Op) (res : Res) (post : Sys) : List (S
       | none => none
       | some o =>
         if post.st.timeoutQ.any (fun e => (e.1 : Int) > post.st.h && e.2.contains id) then none else
+        -- a stored shard cannot have expired before createdAt + duration; later it may have (timeout > duration)
+        if post.st.h ≥ ((o.createdAt + o.duration : Nat) : Int) then none else
         let stored := (o.shards.filterMap post.st.getShard).filter (fun sh => sh.status = ShardCompleted)
         if (stored.length : Int) ≥ o.replica then none
         else some ("C12", s!"clause=leftScheduleUnstored cls=none rec=order{id}:replica={o.replica},stored={stored.length}"))
